@@ -35,18 +35,21 @@ done
 cd /verif
 chk=$(VERIF_REPO=$WT ./check $P --tier $TIER 2>&1)
 rc=$(echo "$chk" | grep -c "^VIOLATION")
+exh=$(echo "$chk" | grep "tier=" | sed 's/.*exhaustive=\([A-Za-z]*\).*/\1/' | tail -1)
+eng=$(echo "$chk" | grep -c "ENGINE-ERROR\|BROKEN-HARNESS")
 keys=$(echo "$chk" | grep -B1 "^VIOLATION" | grep "^  " | cut -c1-200)
 mkdir -p /verif/seeded/$S
 cp $OUT/patch.diff /verif/seeded/$S/; cp $OUT/notes.md /verif/seeded/$S/ 2>/dev/null; for f in $OUT/*_test.go $OUT/*.sh $OUT/*.py; do [ -f "$f" ] && cp $f /verif/seeded/$S/$(basename $f).txt; done
-python3 - "$S" "$P" "$TIER" "$res_apply" "$res_build" "$res_base" "$demo_with" "$demo_without" "$rc" "$keys" <<'PY'
+python3 - "$S" "$P" "$TIER" "$res_apply" "$res_build" "$res_base" "$demo_with" "$demo_without" "$rc" "$keys" "$exh" "$eng" <<'PY'
 import json,sys
-s,p,tier,ap,bu,ba,dw,dwo,rc,keys=sys.argv[1:]
+s,p,tier,ap,bu,ba,dw,dwo,rc,keys,exh,eng=sys.argv[1:]
 notes=open('/tmp/seed/out-%s/notes.md'%s).read() if True else ''
 meta={"seed":s,"property":p,"patch_applies_on_repo_HEAD":ap,"builds":bu,"repository_tests":ba,
  "demonstration_with_change":dw,"demonstration_without_change":dwo,
  "check_run":"VERIF_REPO=<fresh worktree with patch> ./check %s --tier %s"%(p,tier),
  "violations_reported":int(rc),"violation_keys":[k.strip() for k in keys.split('\n') if k.strip()],
  "detected":int(rc)>0,
+ "check_run_exhaustive":exh, "check_run_engine_errors":int(eng or 0),
  "needs_to_manifest":"see notes.md (written by the independent agent)"}
 json.dump(meta,open('/verif/seeded/%s/meta.json'%s,'w'),indent=1)
 print(json.dumps(meta,indent=1))
